@@ -363,10 +363,12 @@ def monitorOp (prop : String) (seen : Seen) (v : OpView) (next : Option OpView) 
           | some c => some c
           | none =>
             if moved.any (· > 8192) then some "block-larger-than-8192"
+            else if cb.getLast? = some "cb:p:1" && !writes.contains (str "ABOR\r\n") && seen.connected then
+              -- the final poll reported cancellation: the next thing the client does is to send ABOR
+              some "cancelled-without-ABOR"
             else if cb.getLast? = some "cb:p:1" && returned then
               -- cancelled: ABOR sent, data connection closed, ABOR's replies part of the result
-              (if !writes.contains (str "ABOR\r\n") then some "cancelled-without-ABOR"
-               else if fds != 0 then some "cancelled-transfer-left-data-connection"
+              (if fds != 0 then some "cancelled-transfer-left-data-connection"
                else if (impl.any (·.startsWith "dsh:")) then some "cancelled-transfer-closed-gracefully"
                else if retReplies ret != some generated then some "abor-replies-not-in-result" else none)
             else if returned && writes.contains (str "ABOR\r\n") then some "ABOR-without-cancellation"
